@@ -71,7 +71,10 @@ class Exec:
                 self.quiet_rounds.append(r)
             w.log.append(("Q", r))
         elif k == "E":
-            w.ctl.event_take[item[1]] = item[2]
+            if len(item) > 3 and item[3] == "fail":
+                w.ctl.event_fail[item[1]] = item[2]
+            else:
+                w.ctl.event_take[item[1]] = item[2]
         elif k == "R":
             if item[1] == "down":
                 performed = w.down(graceful=(len(item) < 3 or item[2] != "kill"))
@@ -167,7 +170,7 @@ def propose(rng, tree, mix, payload, names_f=NAMES_F, names_d=NAMES_D, prefix=""
 STYLES = ("eager", "batched", "bursty", "split")
 
 
-def gen_history(rng, ex, nops, sides=(0, 1), style="batched", mix=None, maxsteps=3, prefixes=None):
+def gen_history(rng, ex, nops, sides=(0, 1), style="batched", mix=None, maxsteps=3, prefixes=None, midfail=0.0):
     """Generate-and-execute a user history on `ex` in the given schedule style.  prefixes: side -> subtree
     prefix that side's user is confined to (disjoint partitions)."""
     mix = mix or DEFAULT_MIX
@@ -196,7 +199,10 @@ def gen_history(rng, ex, nops, sides=(0, 1), style="batched", mix=None, maxsteps
             for _ in range(rng.randrange(0, maxsteps + 2)):
                 wh = rng.randrange(3)
                 if wh < 2 and rng.random() < 0.6:
-                    ex.apply(["E", wh, rng.randrange(1, 3)])
+                    if midfail and rng.random() < midfail:
+                        ex.apply(["E", wh, rng.randrange(0, 3), "fail"])
+                    else:
+                        ex.apply(["E", wh, rng.randrange(1, 3)])
                 ex.apply(["S", wh])
             if rng.random() < 0.15:
                 ex.apply(["T", rng.choice([0.001, 0.003, 0.02])])
@@ -241,7 +247,7 @@ def schedule_sig(plan):
         elif it[0] == "Q":
             out.append("q")
         elif it[0] == "E":
-            out.append("e%d" % it[2])
+            out.append(("x%d" if len(it) > 3 else "e%d") % it[2])
         elif it[0] == "T":
             out.append("t")
         else:
